@@ -98,7 +98,16 @@ TranscriptSeparation ==
 ZeroThresholdNeverRecovers ==
   (inbox # <<>> /\ SharesOf(inbox)[1].thr = 0) => ~Outcome(inbox).ok
 
-Inv == /\ ThresholdRecovery /\ NoSubThresholdRecovery /\ AuthenticatedRecovery
+\* the same obligations packaged as the contract the real code is judged against
+Orig == [i \in 1..Len(inbox) |-> SidOf(Clients[inbox[i].c])]
+Genuine == [i \in 1..Len(inbox) |-> PointHonest(i)]
+Intact == [i \in 1..Len(inbox) |-> Honest(i) \/ DegenerateFault(i)]
+CanOk == CanRecover(SharesOf(inbox), Orig, Genuine, Intact)
+MustOk == MustRecover(SharesOf(inbox), Orig, Genuine, Intact)
+ReferenceMeetsContract == inbox # <<>> => MeetsContract(Outcome(inbox), SharesOf(inbox), Orig, Genuine, Intact)
+
+Inv == /\ ReferenceMeetsContract
+       /\ ThresholdRecovery /\ NoSubThresholdRecovery /\ AuthenticatedRecovery
        /\ ZeroThresholdNeverRecovers /\ TranscriptSeparation
 
 ---------------------------------------------------------------------------
@@ -132,8 +141,11 @@ GroupIndex(o) == IF ~o.ok THEN 0
 Line ==
   LET o == Outcome(inbox)
   IN [ib |-> [i \in 1..Len(inbox) |-> <<inbox[i].c, inbox[i].f>>],
-      ok |-> IF o.ok THEN 1 ELSE 0,
-      grp |-> GroupIndex(o)]
+      ok |-> IF o.ok THEN 1 ELSE 0,            \* the reference model's outcome
+      grp |-> GroupIndex(o),
+      canok |-> IF CanOk THEN 1 ELSE 0,        \* the contract: may succeed (with the first share's sharing)
+      mustok |-> IF MustOk THEN 1 ELSE 0,      \*               must succeed
+      first |-> GroupIndex([ok |-> TRUE, sid |-> SidOf(Clients[inbox[1].c])])]
 EmitInv == inbox # <<>> => PrintT(<<"RECOVER", ToJson(Line)>>)
 ---------------------------------------------------------------------------
 (* client populations *)
